@@ -205,7 +205,7 @@ def build_inputs(tier):
         if k < 0.15:
             s = s + " " + r.choice(["'t'", '"u"', "f'{v}'", "'''w'''", "'{}'", "{1: 2}" if False else "'}'"])
         elif k < 0.3:
-            s = r.choice(["'t'", 'u"u"', "f'{v}'", "r'\\d'"]) + " " + s
+            s = r.choice(["'t'", 'u"u"', 'U"v"', "f'{v}'", "r'\\d'", "''"]) + " " + s
         ctx = r.choice(["x = {}\n", "print({}, {{1}})\n", "{}\n", "f({}, k={})\n", "y = [{}]\nz = {{'a': 1}}\n", "if {}: pass\n"])
         cases.append(("product", ctx.replace("{}", s.replace("{", "\x01").replace("}", "\x02")).replace("{{", "{").replace("}}", "}").replace("\x01", "{").replace("\x02", "}"), "exec"))
     for i in range(150 * N):
